@@ -64,6 +64,10 @@ T["C17"] = ("reference-model monitor: abstract dtype state machine stepped besid
             "All sequences of length <= 2 (quick) / 3 (thorough) over 14 cast / simulate / register_buffer / default-dtype / rejected-int operations are enumerated for each of "
             "8 primaries (two constructions) and 3 derivative wrappers, plus random sequences of length 4-10; after every operation declared dtype and every buffer dtype must "
             "agree with the reference state machine, simulations must be produced in the declared dtype, and derived quantities must carry it.", "4 C17 / appendix B")
+T["C16"] = ("tensor write-sanitizer (identity + autograd version counter + byte hash) on all instrument buffers and functional arguments; fresh-clone differential over operation sequences",
+            "Every public computation (payoffs, every feature for one step and all steps, listed prices, BS modules, autogreek, criteria, hedger methods, every public function of "
+            "pfhedge.nn.functional) runs under a sanitizer that re-checks every buffer of every live primary and every tensor argument at its exit; random interleavings of simulate / "
+            "compute_* / price / fit / to() over several derivatives on one hedger are compared bit for bit with a fresh hedger holding copied parameters.", "4 C16")
 NA = {}
 
 def main():
